@@ -30,6 +30,9 @@ Wrong ==
   \cup (IF "lit" \in DOMAIN r
         THEN {<<"literal", f>> : f \in {g \in 1..4 : ~Denotes(r.lit[g], IF g \in {1, 3} THEN r.a ELSE r.b)}}
         ELSE {})
+  \cup (IF "spellings" \in DOMAIN r
+        THEN {<<"spelling", g>> : g \in {h \in 1..Len(r.spellings) : ~Denotes(r.spellings[h].obs, r.spellings[h].want)}}
+        ELSE {})
 
 SetToSeq(S) == LET RECURSIVE Ser(_)
                    Ser(T) == IF T = {} THEN <<>> ELSE LET x == CHOOSE y \in T : TRUE IN <<x>> \o Ser(T \ {x})
